@@ -35,6 +35,9 @@ type P2Config struct {
 	// Reused: the set is written by one Encoder object on its second load / compute / write cycle (the first cycle ran
 	// over other contents of the same files)
 	Reused bool `json:"reused,omitempty"`
+	// ReloadFails (with Reused): between the second cycle's compute and write, a LoadFileData fails (an input is missing
+	// for a moment)
+	ReloadFails bool `json:"reloadfails,omitempty"`
 }
 
 func (c P2Config) Key() string { return fmt.Sprintf("%v", c) }
@@ -124,6 +127,18 @@ func BuildP2(cfg P2Config, seed int64) (*P2Set, error) {
 			}
 			if err = enc.LoadFileData(); err == nil {
 				if err = enc.ComputeParityData(); err == nil {
+					if round == 1 && cfg.ReloadFails {
+						// a reload that fails half-way (the last input is gone for a moment) between compute and write: the
+						// object still describes what it loaded before
+						last := s.Paths[len(s.Paths)-1]
+						keep, _ := fs.Get(last)
+						fs.Del(last)
+						if lerr := enc.LoadFileData(); lerr == nil {
+							err = fmt.Errorf("scen: LoadFileData succeeded without %s", last)
+							break
+						}
+						fs.Put(last, keep)
+					}
 					err = enc.Write(s.Index)
 				}
 			}
